@@ -929,6 +929,47 @@ class Effects(object):
           if fields is not None and all(not spec and '.' not in fname and '[' not in fname for fname, spec, conv in fields):
             # '{}' / '{0}' / '{name}' without a format spec: str() of the argument, total for every kind
             return ('WS' if tainted else 'TR'), R
+          if fields is not None and all('.' not in fname and '[' not in fname for fname, spec, conv in fields):
+            # format specs: judged like the %-conversions (a nested '{k}' in the spec must be a constant)
+            import re as _re
+            okspec = True
+            auto = [0]
+
+            def arg_index(fname):
+              if fname == '':
+                auto[0] += 1
+                return auto[0] - 1
+              return int(fname) if fname.isdigit() else None
+            for fname, spec, conv in fields:
+              i_ = arg_index(fname)
+              if not spec:
+                continue
+              def fill(mo):
+                k_ = mo.group(1)
+                node = n.args[int(k_)] if k_.isdigit() and int(k_) < len(n.args) else None
+                if isinstance(node, ast.Constant):
+                  return str(node.value)
+                if isinstance(node, ast.Attribute) and isinstance(node.value, ast.Name) and fn.cls is not None and \
+                   isinstance(fn.cls.attrs.get(node.attr), ast.Constant):
+                  return str(fn.cls.attrs[node.attr].value)
+                raise KeyError(k_)
+              try:
+                spec2 = _re.sub(r'\{([^{}]*)\}', fill, spec)
+              except KeyError:
+                okspec = False
+                break
+              ty = spec2[-1:] if spec2[-1:].isalpha() or spec2[-1:] == '%' else ''
+              k = args[i_] if i_ is not None and i_ < len(args) else kwk.get(fname, 'TR')
+              if ty in 'feEgG%' and k in ('F?', 'FF', 'INT', 'N?', 'TR'):
+                continue          # float presentation of a number (inf / nan included): total
+              if ty in 'dxXobcn' and k in ('INT', 'TR'):
+                continue
+              if ty in ('s', '') and k in ('WS', 'TR'):
+                continue
+              okspec = False
+              break
+            if okspec:
+              return ('WS' if tainted else 'TR'), R
           if tainted:
             R.append(Raised('ValueError', fn, n, 'str.format with a format spec / attribute lookup applied to wire data'))
             R.append(Raised('TypeError', fn, n, 'str.format with a format spec / attribute lookup applied to wire data'))
